@@ -100,6 +100,9 @@ type Shape struct {
 	// address), equal output scripts likewise, equal previous tx ids are one
 	// byte slice (several outputs of one transaction).
 	OneObject bool `json:"one_object_per_value,omitempty"`
+	// SameInputTwice: the last input (which must equal the first) is not a new
+	// object: the first *bt.Input is listed a second time.
+	SameInputTwice bool `json:"same_input_object_twice,omitempty"`
 }
 
 // Ambiguous reports the one shape excluded by the properties: no inputs, no
@@ -150,6 +153,10 @@ func (s *Shape) Build() *bt.Tx {
 	ids := map[string][]byte{}
 	for i := range s.Ins {
 		in := &s.Ins[i]
+		if s.SameInputTwice && i > 0 && i == len(s.Ins)-1 {
+			tx.Inputs = append(tx.Inputs, tx.Inputs[0])
+			continue
+		}
 		bi := &bt.Input{PreviousTxOutIndex: in.Vout, SequenceNumber: in.Seq, PreviousTxSatoshis: in.PrevSats}
 		id := make([]byte, len(in.TxID))
 		copy(id, in.TxID)
@@ -163,7 +170,16 @@ func (s *Shape) Build() *bt.Tx {
 		_ = bi.PreviousTxIDAdd(id)
 		if in.ViaJSON {
 			js, _ := json.Marshal(map[string]any{"txid": hex.EncodeToString(in.TxID), "vout": in.Vout, "sequence": in.Seq, "unlockingScript": hex.EncodeToString(in.Unlock)})
-			bi = &bt.Input{}
+			// the decoder's destination is an input that was in use before (another outpoint
+			// set through the setter, another script): afterwards it is what the document says
+			bi = &bt.Input{PreviousTxOutIndex: in.Vout + 7, SequenceNumber: ^in.Seq, UnlockingScript: bscript.NewFromBytes([]byte{0x51, 0x52})}
+			if len(in.TxID) == 32 {
+				other := make([]byte, 32)
+				for k := range other {
+					other[k] = ^in.TxID[k]
+				}
+				_ = bi.PreviousTxIDAdd(other)
+			}
 			if err := json.Unmarshal(js, bi); err != nil {
 				panic("gen: bt.Input JSON decode of " + string(js) + ": " + err.Error())
 			}
